@@ -819,6 +819,28 @@ def atoms(test, pol):
     return [(test, pol)]
 
 
+def negate(t):
+    """the expression `not t`, with a single comparison flipped instead of wrapped"""
+    if isinstance(t, ast.UnaryOp) and isinstance(t.op, ast.Not):
+        return t.operand
+    if isinstance(t, ast.Compare) and len(t.ops) == 1:
+        return ast.copy_location(ast.Compare(left=t.left, ops=[_flip(t.ops[0])()], comparators=t.comparators), t)
+    return ast.copy_location(ast.UnaryOp(op=ast.Not(), operand=t), t)
+
+
+def disjuncts(t, pol=True):
+    """`t` (pol=True) or `not t` (pol=False) as a flat list of alternatives: `a or b`, `not (not a and not b)`, ...
+    Negations are pushed onto the leaves (`not a < b` -> `a >= b`)."""
+    if isinstance(t, ast.UnaryOp) and isinstance(t.op, ast.Not):
+        return disjuncts(t.operand, not pol)
+    if isinstance(t, ast.BoolOp) and isinstance(t.op, ast.Or) == pol:
+        out = []
+        for v in t.values:
+            out.extend(disjuncts(v, pol))
+        return out
+    return [t if pol else negate(t)]
+
+
 def _blocks(p):
     for f in ("body", "orelse", "finalbody"):
         b = getattr(p, f, None)
